@@ -2,7 +2,11 @@
 package rules
 
 import (
+	"fmt"
 	"sort"
+	"strings"
+
+	"golang.org/x/tools/go/ssa"
 
 	"vouchcheck/internal/core"
 )
@@ -32,4 +36,203 @@ func IDs() []string {
 	}
 	sort.Strings(out)
 	return out
+}
+
+// commonScopes: the packages (relative paths, prefixes) each property's behaviour lives in, for the cross-cutting
+// rules that are the same for every property (see Common).
+var commonScopes = map[string][]string{
+	"C01": {"services/attester", "strategies/attestationdata", "services/accountmanager"},
+	"C02": {"services/scheduler"},
+	"C03": {"services/controller", "services/chaintime", "services/scheduler"},
+	"C04": {"services/attester"},
+	"C05": {"services/beaconblockproposer", "services/signer"},
+	"C06": {"services/signer"},
+	"C07": {"strategies/"},
+	"C08": {"services/submitter", "util"},
+	"C09": {"strategies/builderbid", "services/blockrelay", "util"},
+	"C10": {"services/blockrelay"},
+	"C11": {"services/blockrelay", "services/proposalpreparer", "util"},
+	"C12": {"services/blockrelay"},
+	"C13": {"services/accountmanager", "services/validatorsmanager"},
+	"C14": {"services/beaconcommitteesubscriber", "services/attestationaggregator", "services/controller"},
+	"C15": {"services/synccommittee", "services/controller", "services/accountmanager"},
+	"C16": {""},
+	"C17": {""},
+	"C18": {"services/cache", "strategies/beaconblockheader", "services/chaintime"},
+	"C19": {"util", ""},
+	"C20": {"services/controller", "services/attester", "strategies/", "services/beaconblockproposer", "services/blockrelay"},
+}
+
+// Common runs the cross-cutting rules within the property's scope. They are instances of one mechanism each
+// (a value lost to a shadowed variable) that break whichever property lives in the code they occur in.
+func Common(id string, p *core.Prog, r *core.Report) {
+	scope := commonScopes[id]
+	if scope == nil {
+		return
+	}
+	prefixes := scope
+	if len(scope) == 1 && scope[0] == "" {
+		prefixes = nil
+	}
+	n := 0
+	for _, sh := range p.ShadowedResults(prefixes...) {
+		if sh.IsError {
+			continue
+		}
+		if id == "C19" && sh.Pkg != "util" && sh.Pkg != "." && sh.Pkg != "" {
+			continue
+		}
+		n++
+		r.Violate(id+".x", sh.Pkg+"."+sh.Func+"|shadows|"+sh.Name, p.Pos(sh.Inner), "`"+sh.Name+" :=` in a nested block hides the "+sh.Name+" of the enclosing function, which is read again at "+p.Pos(sh.UsedAt)+" without having been assigned in between: the value obtained inside the block is lost and the stale (often zero) outer value is used")
+	}
+	if n == 0 {
+		r.Hold(id+".x", "no-shadowed-results", "", "no nested short declaration hides a variable that is read after the block, in the property's packages")
+	}
+
+	// the functions of the property's packages
+	var fns []*ssa.Function
+	for _, f := range p.SrcFuncs() {
+		rel := core.RelPkg(f.Pkg.Pkg.Path())
+		in := prefixes == nil
+		for _, pre := range prefixes {
+			if pre == "" {
+				if rel == "" || rel == "." {
+					in = true
+				}
+				continue
+			}
+			if rel == pre || strings.HasPrefix(rel, pre) {
+				in = true
+			}
+		}
+		if in {
+			fns = append(fns, f)
+		}
+	}
+	ds := core.NewDescriber()
+
+	// a rejection is an error: errors.Wrap & co. of an error that is nil on every path to the call return nil
+	nw := 0
+	for _, f := range fns {
+		for _, ci := range core.Calls(f, func(c *ssa.CallCommon) bool {
+			n := core.CalleeName(c)
+			return strings.HasSuffix(n, "pkg/errors.Wrap") || strings.HasSuffix(n, "pkg/errors.Wrapf") || strings.HasSuffix(n, "pkg/errors.WithMessage") || strings.HasSuffix(n, "pkg/errors.WithMessagef") || strings.HasSuffix(n, "pkg/errors.WithStack")
+		}) {
+			e := ci.Common().Args[0]
+			in := ci.(ssa.Instruction)
+			knownNil := core.IsNilConst(e)
+			if !knownNil && core.CountGuards(ds, f, core.NilGuard(ds, e)) > 0 {
+				knownNil = core.Unguarded(ds, f, nil, func(x ssa.Instruction) bool { return x == in }, core.NilGuard(ds, e)) == nil
+			}
+			if knownNil {
+				nw++
+				r.Violate(id+".x", fmt.Sprintf("%s|wrap-of-nil|%s", core.FnKey(f), ds.D(e).String()), p.Pos(ci.Pos()), "the error wrapped here is nil on every path that reaches the call, so the wrapper returns nil: the failure this return stands for is reported as success")
+			}
+		}
+	}
+	if nw == 0 {
+		r.Hold(id+".x", "no-wrap-of-nil", "", "no errors.Wrap of an error that is known to be nil")
+	}
+
+	// results that can be nil without an error are tested before they are dereferenced
+	nn := 0
+	for _, f := range fns {
+		for _, nd := range core.NilNilDerefs(ds, f, func(c *ssa.Call) []*ssa.Function { return p.CalleesAt(f, c) }) {
+			nn++
+			r.Violate(id+".x", fmt.Sprintf("%s|nil-result-deref|%s", core.FnKey(f), ds.D(nd.Value).String()), p.Pos(nd.Use.Pos()), "dereference of a call result that "+nd.Why+", without a nil test (nil pointer dereference)", p.WitnessText(nd.Witness)...)
+		}
+	}
+	if nn == 0 {
+		r.Hold(id+".x", "no-nil-without-error-deref", "", "no result that can be nil without an error is dereferenced untested")
+	}
+
+	// wait groups balance; fan-outs do not run under a fail-fast (errgroup) context; coalesced requests are keyed by the request
+	checkWaitGroupBalance(p, r, id+".x", fns, "the caller blocks for ever (and keeps what it holds)")
+	for _, f := range fns {
+		for _, ci := range core.Calls(f, func(c *ssa.CallCommon) bool { return strings.HasSuffix(core.CalleeName(c), "errgroup.WithContext") }) {
+			if call, ok := ci.(*ssa.Call); ok {
+				if ex := core.ExtractOf(call, 1); ex != nil && ex.Referrers() != nil && len(*ex.Referrers()) > 0 {
+					r.Violate(id+".x", core.FnKey(f)+"|fail-fast-context", p.Pos(ci.Pos()), "the members of this fan-out run under the context of errgroup.WithContext, which is cancelled as soon as one of them fails: one member's failure aborts the work of the others")
+				}
+			}
+		}
+		for _, ci := range core.Calls(f, func(c *ssa.CallCommon) bool {
+			callee := c.StaticCallee()
+			return callee != nil && callee.Signature.Recv() != nil && strings.HasSuffix(callee.Signature.Recv().Type().String(), "singleflight.Group") && (callee.Name() == "Do" || callee.Name() == "DoChan")
+		}) {
+			kd := ds.D(ci.Common().Args[1])
+			// the key must be built from everything the shared function's result depends on; decided here: it is built from
+			// something of the request at all
+			if !kd.Any(func(x *core.VD) bool { return x.Kind == "param" }) {
+				r.Violate(id+".x", core.FnKey(f)+"|coalescing-key", p.Pos(ci.Pos()), "requests are coalesced under the key "+kd.String()+", which does not identify what is asked for: a caller receives the in-flight answer to another request")
+			}
+		}
+	}
+}
+
+// imports: rules of sibling properties that decide a clause this property depends on as well (the same code serves
+// both). The sibling pack is run and the obligations of the listed rules are taken over under this property's
+// id, so that a change that breaks the shared mechanism is reported by every property that relies on it.
+var imports = map[string][]string{
+	"C03": {"C02.d", "C02.i"},
+	"C09": {"C11.i", "C16.i"},
+	"C10": {"C12.j"},
+	"C11": {"C12.l", "C12.m", "C12.j", "C10.f", "C10.k"},
+	"C15": {"C17.i", "C13.c", "C17.h"},
+	"C20": {"C02.d", "C05.e", "C12.l"},
+	"C05": {"C06.g"},
+	"C04": {"C06.g", "C03.j"},
+}
+
+// RunImports takes over the listed sibling obligations into r (rule id "<this>.y", construct prefixed by the origin).
+func RunImports(id string, p *core.Prog, r *core.Report, tier string) {
+	want := imports[id]
+	if len(want) == 0 {
+		return
+	}
+	byPack := map[string]map[string]bool{}
+	for _, w := range want {
+		pk := w[:3]
+		if byPack[pk] == nil {
+			byPack[pk] = map[string]bool{}
+		}
+		byPack[pk][w] = true
+	}
+	var pks []string
+	for pk := range byPack {
+		pks = append(pks, pk)
+	}
+	sort.Strings(pks)
+	for _, pk := range pks {
+		sib := packs[pk]
+		if sib == nil {
+			continue
+		}
+		tmp := core.NewReport(pk)
+		func() {
+			defer func() {
+				if e := recover(); e != nil {
+					r.Undecide(id+".y", "import of "+pk, "", fmt.Sprintf("sibling pack panicked: %v", e))
+				}
+			}()
+			sib.Run(p, tmp, "quick")
+		}()
+		n := 0
+		for _, o := range tmp.Obligations {
+			if !byPack[pk][o.Rule] {
+				continue
+			}
+			n++
+			construct := "[" + o.Rule + "] " + o.Construct
+			switch o.Verdict {
+			case core.Holds:
+				r.Hold(id+".y", construct, o.Pos, o.Detail)
+			case core.Violated:
+				r.Violate(id+".y", construct, o.Pos, o.Detail, o.Witness...)
+			default:
+				r.Undecide(id+".y", construct, o.Pos, o.Detail)
+			}
+		}
+		r.Floor(id+".y obligations taken over from "+pk, n, 1)
+	}
 }
